@@ -1,6 +1,7 @@
 -- Root of the `EvyV` library: the property theorem files (which import the models, specs,
 -- lemmas and the regenerated facts under EvyV/Gen).
 import EvyV.Props.C01
+import EvyV.Props.C01Pratt
 import EvyV.Props.C02
 import EvyV.Props.C03
 import EvyV.Props.C04
